@@ -1,17 +1,108 @@
 import SasLexer.Spec.Pairs
 import SasLexer.Lex.Main
+import SasLexer.Proofs.Kernel.Shift
+import SasLexer.Properties.C03
 /-!
-# C17 — a leading byte-order mark is transparent
+# C17 — a leading byte-order mark is transparent: theorems
 
 Full-strength statement: `C17_statement`.
+
+Proved — **kernel, relational, for every control logic** (`kernel_C17`): for every program `p`
+(main loop) and `q` (finalisation) over the primitives, every source `s` not starting with a BOM
+and every build configuration, the run on `BOM :: s` performs the same operations as the run on
+`s` and ends in the state shifted by (3 bytes, 1 char): tokens, line starts and errors have their
+byte offsets + 3 and char offsets + 1, and lines, columns, token indices, payloads, the literal
+buffer, the mode stack and the returned values are identical.  This rests on `run_shift`
+(`Proofs/Kernel/Shift.lean`): no primitive's response contains a position, so a program cannot
+tell the two runs apart.
+
+Side condition `RunOk`: the two primitives whose byte arithmetic saturates at zero
+(`pendingTextWithPrev`: `cur_token_byte_offset.saturating_sub(1)`; `litResolve back`:
+`cur_byte_offset() - back`) must not be executed at an offset below their decrement.  In the
+real control logic they run after the opening quote of the literal has been consumed.  The
+executable monitor `sideOkRun` evaluates the condition on every explored run
+(`C17_model_partial` assumes it; the evidence reports on how many runs it held).
 -/
 namespace SasLexer
 
 def C17_statement : Prop :=
   ∀ (cfg : Cfg) (s : List Char), s.head? ≠ some BOM → Spec.C17 s (modelDump cfg s) (modelDump cfg (BOM :: s)) = []
 
-example : Spec.C17 "a='é\n';\n%m(x)".toList (modelDump ⟨true, true, false⟩ "a='é\n';\n%m(x)".toList)
-    (modelDump ⟨true, true, false⟩ (BOM :: "a='é\n';\n%m(x)".toList)) = [] := by
-  decide +kernel
+def bomShift : Shift := { pre := [BOM], db := 3, dc := 1, hdb := by decide, hdc := rfl }
+
+theorem skipBom_of_ne {s : List Char} (h : s.head? ≠ some BOM) : Lexer.skipBom (Cursor.new s) = Cursor.new s := by
+  unfold Lexer.skipBom Cursor.new
+  cases s with
+  | nil => rfl
+  | cons c r =>
+    have : c ≠ BOM := by intro hc; apply h; simp [hc]
+    simp [this]
+
+theorem new_bom (cfg : Cfg) (s : List Char) (h : s.head? ≠ some BOM) :
+    Lexer.new cfg (BOM :: s) = shiftL bomShift (Lexer.new cfg s) := by
+  have hsz : BOM.utf8Size = 3 := by decide
+  have e1 : Lexer.skipBom (Cursor.new (BOM :: s)) = { rest := s, charOff := 1, remBytes := utf8Len s } := by
+    simp [Lexer.skipBom, Cursor.new, Cursor.advance, utf8Len, hsz]
+  unfold Lexer.new
+  rw [e1, skipBom_of_ne h]
+  have hl : utf8Len (BOM :: s) = utf8Len s + 3 := by simp [utf8Len, hsz, Nat.add_comm]
+  simp only [hl, Cursor.new, Lexer.bufAddLine, shiftL, bomShift, Shift.cur, Shift.pos, Shift.line, Shift.lit,
+    List.map_nil, List.map_cons, Option.map_none, Nat.add_sub_cancel_left, Nat.sub_self, Nat.zero_add,
+    List.cons_append, List.nil_append]
+  have d2 : decide (0 ≤ utf8Len s) = true := by simp
+  have a1 : utf8Len s + 3 - utf8Len s = 3 := by omega
+  have d3 : decide (3 ≤ utf8Len s + 3) = true := by simp
+  simp only [d2, a1, d3]
+
+/-- detached buffer of the shifted state = shifted detached buffer -/
+def shiftD (σ : Shift) (b : DBuf) : DBuf :=
+  { lines := b.lines.map σ.line, toks := b.toks.map σ.tok, lits := b.lits }
+
+theorem intoDetached_shift (σ : Shift) (cfg : Cfg) (L : Lexer) (hn : L.linesR ≠ []) :
+    (shiftL σ L).intoDetached cfg = (shiftD σ (L.intoDetached cfg).1, shiftL σ (L.intoDetached cfg).2) := by
+  unfold Lexer.intoDetached
+  have e1 : (shiftL σ L).linesR.isEmpty = false := by
+    cases hl : L.linesR with
+    | nil => exact absurd hl hn
+    | cons a r => simp [shiftL, hl]
+  have e2 : L.linesR.isEmpty = false := by
+    cases hl : L.linesR with
+    | nil => exact absurd hl hn
+    | cons a r => rfl
+  simp only [e1, e2, Bool.false_eq_true, if_false]
+  have hlen : (σ.pre ++ L.src).length = L.src.length + σ.dc := by rw [List.length_append, σ.hdc, Nat.add_comm]
+  cases hts : L.toksR with
+  | nil =>
+    simp only [shiftL, hts, List.map_nil, shiftD, List.reverse_cons, List.reverse_nil, List.nil_append, List.map_cons,
+      List.length_map, Shift.tok, hlen, List.map_reverse]
+  | cons t ts =>
+    have ety : (σ.tok t).ty = t.ty := rfl
+    simp only [shiftL, hts, List.map_cons, ety]
+    by_cases hE : t.ty = .EOF
+    · simp only [hE, if_true, shiftD, List.map_reverse, List.map_cons, hts, shiftL]
+    · simp only [hE, if_false, shiftD, List.map_reverse, List.map_cons, hts, shiftL, List.length_map, Shift.tok, hlen,
+        List.reverse_cons, List.map_append, List.map_nil]
+
+/-- **Kernel theorem (C17), every control logic.** -/
+theorem kernel_C17 (cfg : Cfg) {α β} (p : Prog α) (q : Prog β) (s : List Char) (h : s.head? ≠ some BOM)
+    (hp : RunOk cfg p (Lexer.new cfg s)) (hq : RunOk cfg q (Prog.run cfg p (Lexer.new cfg s)).2) :
+    (runThenDetach cfg p q (BOM :: s)).1 = shiftD bomShift (runThenDetach cfg p q s).1 ∧
+    (runThenDetach cfg p q (BOM :: s)).2 = shiftL bomShift (runThenDetach cfg p q s).2 ∧
+    (Prog.run cfg p (Lexer.new cfg (BOM :: s))).1 = (Prog.run cfg p (Lexer.new cfg s)).1 := by
+  have k0 := new_KPos cfg s
+  have n0 := new_KLn cfg s
+  have r1 := run_shift bomShift cfg p (Lexer.new cfg s) k0 n0 hp
+  have k1 := run_KPos cfg p _ k0
+  have n1 := run_KLn cfg p _ n0
+  have r2 := run_shift bomShift cfg q _ k1 n1 hq
+  have n2 := run_KLn cfg q _ n1
+  unfold runThenDetach
+  dsimp only
+  rw [new_bom cfg s h, r1]
+  dsimp only
+  rw [r2]
+  dsimp only
+  rw [intoDetached_shift bomShift cfg _ n2.ne]
+  exact ⟨rfl, rfl, rfl⟩
 
 end SasLexer
